@@ -62,6 +62,13 @@ registry fixes for that key's type and curve; keys outside the table get no sign
 theorem C18_signature_algorithm_matches_curve :
     Generated.signatureAlgorithm.all Cddl.sigAlgRowOk = true := by decide +kernel
 
+/-- … and the registry rows that statement is checked against carry the curve numbers the crate
+itself writes and reads (`curveToInt`, re-extracted from cose_key.rs): all eight curves, no other -/
+theorem C18_curve_registry_matches_source :
+    Generated.curveToInt.all (fun r => Cddl.curveIds.contains
+      (r.2.1, (if r.1 == "EC2Curve".toList.map (·.toNat) then 2 else 1), r.2.2)) = true ∧
+    Generated.curveToInt.length = Cddl.curveIds.length := by decide +kernel
+
 /-- non-vacuity: the table is not empty and a wrong pairing is refused (ES256 for secp256k1) -/
 example : Generated.signatureAlgorithm.length = 5 := by decide +kernel
 example : Cddl.sigAlgRowOk ("EC2".toList.map (·.toNat), "P256K".toList.map (·.toNat), "ES256".toList.map (·.toNat)) = false := by
